@@ -326,7 +326,8 @@ def check_mpf2multiword(r, repo, rule="R13.5"):
     from sa.paths import enumerate_paths, calls_in, call_name
     from sa.defuse import last_def, origins
 
-    f = repo.func(REL, "mpf2multiword")
+    from sa.core import inline_helpers
+    f = inline_helpers(repo, REL, repo.func(REL, "mpf2multiword"))
     xname = f.args.args[1].arg
     unp = [st for st in f.body if isinstance(st, ast.Assign) and isinstance(st.targets[0], ast.Tuple) and dotted(st.value) == f"{xname}._mpf_"
            and len(st.targets[0].elts) == 4 and all(isinstance(e, ast.Name) for e in st.targets[0].elts)]
@@ -361,11 +362,16 @@ def check_mpf2multiword(r, repo, rule="R13.5"):
                 elif elts is None or len(elts) != 4:
                     detail = None if elts is not None and len(elts) == 2 else f"`{norm_src(t)}` is not a (sign, man, exp, bc) tuple"
                 else:
-                    def resolve(e_):
-                        # a local name stands for its last definition on the path; any other expression stands for itself, evaluated here
-                        if isinstance(e_, ast.Name):
-                            return last_def(e_.id, p.events, i)
-                        return (i, e_)
+                    def resolve(e_, at=None):
+                        # a local name stands for its last definition on the path (followed through plain copies `a = b`); any other
+                        # expression stands for itself, evaluated here
+                        cur = (i if at is None else at, e_)
+                        while isinstance(cur[1], ast.Name) and cur[1].id not in (MAN, EXP, SIGN):
+                            d_ = last_def(cur[1].id, p.events, cur[0])
+                            if not d_:
+                                return None if cur[1] is e_ else cur
+                            cur = d_
+                        return cur
 
                     mdef, xdef, bdef = resolve(elts[1]), resolve(elts[2]), resolve(elts[3])
                     if not (mdef and xdef and bdef):
@@ -392,8 +398,11 @@ def check_mpf2multiword(r, repo, rule="R13.5"):
                         elif dotted(b_) == EXP:
                             xo = norm_src(a_)
                     bv = bdef[1]
-                    bl_ok = isinstance(bv, ast.Call) and isinstance(bv.func, ast.Attribute) and bv.func.attr == "bit_length" and dotted(bv.func.value) == dotted(elts[1]) and bdef[0] >= mdef[0] \
-                        and (bdef[0] > mdef[0] or not isinstance(elts[3], ast.Name))
+                    bl_ok = isinstance(bv, ast.Call) and isinstance(bv.func, ast.Attribute) and bv.func.attr == "bit_length"
+                    if bl_ok:
+                        # the receiver of bit_length(), where it was evaluated, must be the very definition of the mantissa slice used here
+                        rdef = resolve(bv.func.value, bdef[0])
+                        bl_ok = rdef is not None and rdef[0] == mdef[0] and rdef[1] is mdef[1]
                     # the shift variable must not change between the slice, the exponent and the use
                     first = min(mdef[0], xdef[0])
                     changed = any(ev_.kind == "stmt" and any(dotted(tt) == o for tt, _ in _stores(ev_.node)) for ev_ in p.events[first + 1:i])
